@@ -1,4 +1,5 @@
 """C09 — iterative solvers honour their termination contract."""
+import itertools
 import json
 import math
 import core
@@ -113,9 +114,73 @@ def rand_float(rng, atol, rtol, prev, first):
     return 10.0 ** rng.uniform(-14, 6) * rng.choice([1.0, 1.0, 1.0, rng.random()])
 
 
+# ---- ArmijoGoldsteinLS: objective histories relative to the sufficient-decrease window at each step length
+# A inside the window (accepted), T exactly the upper threshold, J the float just above it, H far above,
+# L below the Goldstein lower limit (accepted by Armijo only), N NaN, I +inf
+LS_LETTERS = 'ATJHLNI'
+LS_OPTS = [(0.5, 0.1, 1.0), (0.3, 0.1, 0.7), (1.0, 0.25, 2.0)]    # (rho, c, alpha)
+
+
+def ls_concretize(word, phi0raw, rho, c, alpha):
+    phi0 = phi0raw if phi0raw != 0.0 else 1.0
+    out, a = [phi0raw], alpha
+    for j, ch in enumerate(word):
+        if j >= 2:
+            a = a * rho
+        up = phi0 + (c * a) * (-phi0)
+        low = phi0 + ((1 - c) * a) * (-phi0)
+        if ch == 'A':
+            v = (low + up) / 2 if low <= up else up - 1.0
+        elif ch == 'T':
+            v = up
+        elif ch == 'J':
+            v = math.nextafter(up, math.inf)
+        elif ch == 'H':
+            v = 3.0 * phi0 + 1.0 + j
+        elif ch == 'L':
+            v = low - 1.0
+        elif ch == 'N':
+            v = float('nan')
+        else:
+            v = float('inf')
+        out.append(v)
+    return out
+
+
+def mk_ls(maxiter, rho, c, alpha, gold, norms, kind):
+    return {'cls': 'ag', 'maxiter': maxiter, 'rho': hx(rho), 'c': hx(c), 'alpha': hx(alpha), 'goldstein': gold,
+            'norms': [hx(v) for v in norms], 'kind': kind}
+
+
+def ls_cases(tier, rng):
+    quick = tier == 'quick'
+    cases = []
+    for maxiter in range(0, 4):
+        letters = LS_LETTERS if (maxiter <= 2 or not quick) else 'AJLN'
+        for (rho, c, alpha) in LS_OPTS:
+            for gold in (False, True):
+                for phi0 in ((10.0, 0.0) if (maxiter <= 2 or not quick) else (10.0,)):
+                    for w in itertools.product(letters, repeat=maxiter + 1):
+                        cases.append(mk_ls(maxiter, rho, c, alpha, gold,
+                                           ls_concretize(w, phi0, rho, c, alpha) + [1000.0],
+                                           'ag:maxiter=%d' % maxiter))
+    for _ in range(1500 if quick else 30000):
+        maxiter = rng.choice([-1, 0, 1, 2, 3, 5, 8])
+        rho = rng.choice([0.0, 0.5, 1.0, rng.random(), rng.random()])
+        c = rng.choice([0.0, 0.1, 0.5, 1.0, rng.random()])
+        alpha = rng.choice([1.0, 0.5, 2.0, 10.0 ** rng.uniform(-3, 0.6)])
+        phi0 = rng.choice([0.0, 1.0, 10.0 ** rng.uniform(-8, 8)])
+        word = ''.join(rng.choice('AATJJHHLNI') for _ in range(max(maxiter, 0) + 1))
+        norms = ls_concretize(word, phi0, rho, c, alpha)
+        norms = [v if rng.random() < 0.8 else (v * (1 + rng.choice([-1, 1]) * 2.0 ** -rng.randrange(30, 53)) if math.isfinite(v) else v)
+                 for v in norms]
+        cases.append(mk_ls(maxiter, rho, c, alpha, rng.random() < 0.5, norms + [1000.0], 'ag:random'))
+    return cases
+
+
 class C09(Spec):
     pid = 'C09'
-    imports = ['C09.Model']
+    imports = ['C09.Model', 'C09.ModelLS']
     impl_script = 'props/C09/impl.py'
     exactness = 'E5/E1: bit-exact binary64 norms and options (hex literals), integer-exact iteration counts, outcome class, raised-or-not'
     shard = 5000
@@ -184,6 +249,7 @@ class C09(Spec):
                 if first is None:
                     first = v if v != 0.0 else 1.0
             cases.append(mk(cls, maxiter, atol, rtol, st, rng.random() < 0.5, cs, norms, '%s:random' % cls))
+        cases += ls_cases(tier, rng)
         # different words can denote the same concrete history (E after H at position 0, ...): keep one
         seen, out = set(), []
         for c in cases:
@@ -202,13 +268,23 @@ class C09(Spec):
             boollit(c['stall_rel']), boollit(c['err']), boollit(c['cs']))
 
     def got_term(self, c):
+        if c['cls'] == 'ag':
+            return '(run_ls (mklsopts (%d) %s %s %s %s) [%s])' % (
+                c['maxiter'], flit(c['rho']), flit(c['c']), flit(c['alpha']), boollit(c['goldstein']),
+                '; '.join(flit(v) for v in c['norms']))
         return '(run %s [%s])' % (self.opts_term(c), '; '.join(flit(v) for v in c['norms']))
 
     def want_term(self, c, res):
+        if c['cls'] == 'ag':
+            return core.to_val(res['res'])
         a, b, k, d, e = res['res']
         return '(W (%d) (%d) (%d) (%d) %s)' % (a, b, k, d, boollit(e))
 
     def shrink(self, c):
+        if c['cls'] == 'ag':
+            if len(c['norms']) > 3:
+                yield dict(c, norms=c['norms'][:-1])
+            return
         if len(c['norms']) > 2:
             yield dict(c, norms=c['norms'][:-1])
         if c['maxiter'] > 1:
